@@ -145,14 +145,16 @@ def _factor_out_pi(num_list: List[Union[Number, str]], denominator: int = 12) ->
             continue
 
         if np.isclose(p % factor, [0, factor]).any() and p != 0:
-            gcd = np.gcd(int(p / factor), denominator)
+            # number of factors, rounded: the division may end just below the integer
+            num = int(round(p / factor))
+            gcd = np.gcd(num, denominator)
             if gcd == denominator:
-                if int(p / np.pi) == 1:
+                if num // denominator == 1:
                     a.append("np.pi")
                 else:
-                    a.append(f"{int(p / np.pi)}*np.pi")
+                    a.append(f"{num // denominator}*np.pi")
             else:
-                coeff = int(p / factor / gcd)
+                coeff = num // gcd
                 if coeff == 1:
                     a.append(f"np.pi/{int(denominator / gcd)}")
                 else:
